@@ -29,8 +29,8 @@ def plan(tier, seed):
 
 
 def floors(tier):
-    return {"evaluations": 1000, "strata": ["recompute", "stale-nodes", "permutation", "option-change", "second-label-set"],
-            "events": {"Force.compute": 3000}, "distinct_nontrivial": 200}
+    return {"evaluations": 400, "strata": ["recompute", "stale-nodes", "permutation", "option-change", "second-label-set"],
+            "events": {"Force.compute": 1500}, "distinct_nontrivial": 200}
 
 
 def proviso(labels):
